@@ -63,13 +63,13 @@ func gen(t *rapid.T) *Case {
 	if rapid.IntRange(0, 3).Draw(t, "slow") == 0 {
 		c.DelayMs = rapid.IntRange(1, 4).Draw(t, "delay-ms")
 	}
-	ends := []string{"cancel-at-send", "fail-from-send", "fail-from-send-and-cancel", "stall-then-cancel", "cancel-after"}
+	ends := []string{"cancel-at-send", "fail-from-send", "fail-from-send-and-cancel", "stall-then-cancel", "cancel-after", "cancelled-before-call"}
 	switch c.RPC {
 	case "getdata":
 		c.Paths = genPaths(t, "paths")
 		c.Encoding = rapid.SampledFrom([]string{"STRING", "PROTO", "JSON", "JSON_IETF"}).Draw(t, "encoding")
 		c.DataType = rapid.SampledFrom([]string{"ALL", "CONFIG", "STATE"}).Draw(t, "datatype")
-		ends = append(ends, "exhaust", "exhaust")
+		ends = append(ends, "exhaust", "exhaust", "cancel-after-last-read", "cancel-after-last-read")
 		c.NoCandidate = rapid.IntRange(0, 7).Draw(t, "no-candidate") == 0
 	case "subscribe":
 		n := rapid.IntRange(1, 4).Draw(t, "nsubs")
@@ -78,9 +78,13 @@ func gen(t *rapid.T) *Case {
 				DataType: rapid.SampledFrom([]string{"ALL", "CONFIG", "STATE"}).Draw(t, "datatype")})
 		}
 	case "watchdev":
-		ends = []string{"cancel-after"}
+		ends = []string{"cancel-after", "cancelled-before-call"}
 	}
 	c.End = rapid.SampledFrom(ends).Draw(t, "end")
+	if c.End == "cancel-after-last-read" && rapid.IntRange(0, 3).Draw(t, "document-encoding") != 0 {
+		// the single-document encodings are the ones with a hand-over after the last read
+		c.Encoding = rapid.SampledFrom([]string{"JSON", "JSON_IETF"}).Draw(t, "doc-enc")
+	}
 	return c
 }
 
@@ -89,7 +93,7 @@ const bound = 3 * time.Second
 
 var prop = vlib.Prop[*Case]{
 	ID: "C19",
-	Rule: "case = running configuration (0..12 generated leaves written to the CONFIG store, a copy in STATE) + one streaming call on a harness-owned stream: Server.GetData (hook H7; 1..4 paths, 4 encodings, 3 data types), Datastore.Subscribe (1..4 subscriptions, sample intervals 1..6 ms) or Server.WatchDeviations + the way the client ends: data exhausted, context cancelled when send k happened, every send from index k on fails (with or without the context being cancelled), send k stalls and the context is cancelled later, cancellation after 0..25 ms (hits arbitrary ticks), optionally a slow consumer (1..4 ms per send); " +
+	Rule: "case = running configuration (0..12 generated leaves written to the CONFIG store, a copy in STATE) + one streaming call on a harness-owned stream: Server.GetData (hook H7; 1..4 paths, 4 encodings, 3 data types), Datastore.Subscribe (1..4 subscriptions, sample intervals 1..6 ms) or Server.WatchDeviations + the way the client ends: data exhausted, context cancelled when send k happened, every send from index k on fails (with or without the context being cancelled), send k stalls and the context is cancelled later, cancellation after 0..25 ms (hits arbitrary ticks), a context that is cancelled before the call starts, optionally a slow consumer (1..4 ms per send); " +
 		"oracle = the handler returns within 3 s of the end event and within 3 s of its return no goroutine with a data-server frame that did not exist before the call is left; a panic anywhere kills the process and is reported through the case journal; " +
 		"non-trivial = the end event happened while the call was active (at least one message sent or the call was blocked in a tick wait); distinct = distinct cases",
 	Gen:  gen,
@@ -148,7 +152,8 @@ func paths(ix []int) []*sdcpb.Path {
 func Exec(c *Case) (nontrivial bool, labels []string, fail *vlib.Failure) {
 	ctx := context.Background()
 	env := vlib.MustEnv()
-	h, err := vlib.NewHistEnv(ctx, env, c.Hist, vlib.HistEnvOpts{})
+	deco := vlib.NewCacheDeco(env.Cache)
+	h, err := vlib.NewHistEnv(ctx, env, c.Hist, vlib.HistEnvOpts{DS: vlib.DSOpts{Cache: deco}})
 	if err != nil {
 		fmt.Fprintf(os.Stderr, "HARNESS-ERROR %v\n", err)
 		os.Exit(2)
@@ -203,6 +208,29 @@ func Exec(c *Case) (nontrivial bool, labels []string, fail *vlib.Failure) {
 				}()
 			}
 		}
+	}
+	if c.End == "cancel-after-last-read" {
+		// the client goes away after the K-th cache read of the call delivered its last element: for the JSON encodings
+		// that is between reading and handing the document over
+		k := 0
+		if c.DataType == "ALL" && !c.NoCandidate {
+			k = 1 // CONFIG, then STATE
+		}
+		deco.OnReadChEnd = func(ord int) {
+			if ord == k {
+				mark()
+				if cancel != nil {
+					cancel()
+				}
+			}
+		}
+	}
+	if c.End == "cancelled-before-call" {
+		// the client is gone before the handler starts
+		cctx, ccancel := context.WithCancel(pctx)
+		ccancel()
+		pctx = cctx
+		mark()
 	}
 	switch c.RPC {
 	case "getdata":
